@@ -67,7 +67,7 @@ NEEDS = {
  "C07-w4m2": ("timer wrapper clears its pending flag after the callback, wiping the callback's own re-arm", "loss of the first InitHello or of RespDone, or two losses", ""),
  "C07-w4m3": ("restarted initiator session keeps the ID of the abandoned hello", "expired initiator handshake, then crossing InitHellos with a particular hash order (1 in 3)", ""),
  "C09-w4m1": ("mbapp collector takes the part size from the first part that arrives", "three or more parts, length not a multiple of the part size, short last part arriving first", ""),
- "C09-w4m3": ("fragswarm Overhead constant smaller than the largest real header", "a per-peer message counter of 2^21 or more and a message of more than 128 full fragments", "NOT DETECTED: needs two million earlier messages to one peer; there is no seam to start the counter high, and no run reaches it"),
+ "C09-w4m3": ("fragswarm Overhead constant smaller than the largest real header", "a per-peer message counter of 2^21 or more and a message of more than 128 full fragments", "missed at first: needs two million earlier messages to one peer. A guarded hook (build tag verif, /repo commit cd18d4f) now lets the simulation start the fragment ids and the mbapp counter anywhere in their range; reported since"),
  "C11-w4m3": ("quicswarm allocates the ask buffers once per session", "two asks from one peer overlapping in time", "missed at first (the Tier B workload was strictly sequential); bursts of overlapping asks with lingering handlers added; the interleaving does not replay, the driver reports Tier B replay agreement instead"),
  "C12-w4m2": ("p2pkeswarm.Close purges the channels before its workers have ended", "Close racing with a first-contact InitHello inside a worker", "found by the thorough tier only at first (7 of 12000 runs); first contacts are now timed to land at Close and the quick tier runs 8000 runs"),
  "C13-w4m1": ("AskHub.Deliver honours its context after the hand-over", "deliverer's context cancelled between rendezvous and end of the handler", ""),
